@@ -501,6 +501,10 @@ pub fn run(ctx: &Ctx) -> ! {
             for (where_, script) in [
                 ("before-status", Script { stall_before_status: Some(Duration::from_millis(1500)), ..Script::ok(body.clone()) }),
                 ("mid-attributes", Script { stall_mid: Some((body.len() / 2, Duration::from_millis(1500))), plan: Plan::OneWrite, ..Script::ok(body.clone()) }),
+                // never silent for long, but slower overall than the timeout allows: 100 ms pauses, > 1 s in total
+                ("dribbled-16-bytes-per-100ms", Script { dribble: Some((16, Duration::from_millis(100))), ..Script::ok(body.clone()) }),
+                ("dribbled-chunked", Script { dribble: Some((24, Duration::from_millis(120))), framing: Framing::Chunked, ..Script::ok(body.clone()) }),
+                ("dribbled-close-delimited", Script { dribble: Some((24, Duration::from_millis(120))), framing: Framing::Close, ..Script::ok(body.clone()) }),
             ] {
                 for timeout in [Some(300u64), None] {
                     stall_cases.push((kind, where_, script.clone(), timeout));
@@ -521,7 +525,7 @@ pub fn run(ctx: &Ctx) -> ! {
             match (timeout, result) {
                 (Some(_), Err(_)) if took < Duration::from_secs(5) => s.outcome("timeout-is-error"),
                 (Some(_), Err(_)) => s.violate(format!("{}:timeout-too-late", kind.name()), format!("{}: error only after {:?}", case, took), case.clone()),
-                (Some(_), Ok(_)) => s.violate(format!("{}:timeout-ignored", kind.name()), format!("{}: send() returned Ok after {:?} although the server stalled 1.5 s", case, took), case.clone()),
+                (Some(_), Ok(_)) => s.violate(format!("{}:timeout-ignored", kind.name()), format!("{}: send() returned Ok after {:?} although the exchange took longer than the request timeout (server stalled 1.5 s / dribbled for more than 1 s)", case, took), case.clone()),
                 (None, Ok(_)) => s.outcome("no-timeout-waits"),
                 (None, Err(e)) => s.violate(format!("{}:spurious-timeout", kind.name()), format!("{}: no timeout configured but send() failed: {}", case, &e[..e.len().min(200)]), case.clone()),
             }
